@@ -13,6 +13,7 @@ import pandas as pd
 from tabulate import tabulate
 
 from glotaran.io import load_parameters
+from glotaran.parameter.parameter import PARAMETER_EXPRESSION_REGEX
 from glotaran.parameter.parameter import Parameter
 from glotaran.utils.ipython import MarkdownStr
 from glotaran.utils.sanitize import pretty_format_numerical
@@ -315,15 +316,43 @@ class Parameters:
         ValueError
             Raised if an expression evaluates to a non-numeric value.
         """
-        for parameter in self.all():
-            if parameter.expression is not None:
-                value = self._evaluator(parameter.transformed_expression)
-                if not isinstance(value, (int, float)):
-                    raise ValueError(
-                        f"Expression '{parameter.expression}' of parameter '{parameter.label}' "
-                        f"evaluates to non numeric value '{value}'."
-                    )
-                parameter.value = value
+        for parameter in self._get_expression_parameters_in_dependency_order():
+            value = self._evaluator(parameter.transformed_expression)
+            if not isinstance(value, (int, float)):
+                raise ValueError(
+                    f"Expression '{parameter.expression}' of parameter '{parameter.label}' "
+                    f"evaluates to non numeric value '{value}'."
+                )
+            parameter.value = value
+
+    def _get_expression_parameters_in_dependency_order(self) -> list[Parameter]:
+        """Sort the parameters which have an expression by their dependencies.
+
+        Each parameter is listed after all parameters with an expression which are referenced
+        in its own expression, independent of the order in which the parameters were defined.
+        Parameters without dependencies (or with cyclic ones) keep their definition order.
+
+        Returns
+        -------
+        list[Parameter]
+            The parameters with an expression in evaluation order.
+        """
+        expression_parameters = {p.label: p for p in self.all() if p.expression is not None}
+        ordered: dict[str, Parameter] = {}
+
+        def visit(parameter: Parameter, visiting: set[str]):
+            if parameter.label in ordered or parameter.label in visiting:
+                return
+            visiting.add(parameter.label)
+            for match in PARAMETER_EXPRESSION_REGEX.finditer(parameter.expression):
+                referenced = expression_parameters.get(match.group("parameter_expression"))
+                if referenced is not None:
+                    visit(referenced, visiting)
+            ordered[parameter.label] = parameter
+
+        for parameter in expression_parameters.values():
+            visit(parameter, set())
+        return list(ordered.values())
 
     def get_label_value_and_bounds_arrays(
         self, exclude_non_vary: bool = False
